@@ -73,6 +73,18 @@ CHECKS = {
             'Trusts TLC. Equality is equality of an integer colour (transitive). The empty answer when nothing is common is '
             'not constrained.',
             'DESIGN.md section 5 / C06'),
+    'C05': ('model_checking',
+            'TLA+ spec Links (order relation operational = documented matrix, checked exhaustively by TLC and replayed into '
+            'match_order; Fits = declarative placement condition; ApplyPlacement = replace / remove-matching / add-or-replace '
+            'fold) + TLC validation of recorded runs of the real DoLinks (matches per link from an interposed match_link, node '
+            'attributes each link saw, node deletions, final interaction table)',
+            'For every recorded run TLC recomputes the set of fitting placements of every link on the state that link saw and '
+            'requires it to equal the placements the real code applied (sound and complete), then folds the applications in '
+            'the recorded order and requires the final table to match (later links override, nothing unjustified, geometry '
+            'from the matched atoms).',
+            'Trusts TLC and the interposition on vermouth.processors.do_links.match_link. Links are built as objects (grammar is '
+            'C13). Not generated: self-modifying links, non-numeric non-edge partner orders, angle/dihedral effectors.',
+            'DESIGN.md section 5 / C05'),
 }
 
 PENDING = {}
